@@ -197,7 +197,13 @@ theorem dc_end_to_end (remoteMaxData localSendMaxData cwnd : Nat) (ops : List St
     exact (dc_frames_consistent_init remoteMaxData localSendMaxData cwnd ops wr hwr).1
   exact ⟨dc_reasm_prefix w now it md win evs hc, dc_reasm_complete w now it md win evs hc⟩
 
-/-! ## a defect of /repo found by the C20 simulation: BBR's minimum window overflows u16 -/
+/-! ## defects of /repo found by the C20 simulation: the upper half of the MTU range (≥ 16384)
+
+  The property says "any MTU 1250..32k" (`stream::MAX_DATAGRAM_SIZE = 2^15`, bridged by
+  `max_datagram_size_eq`). Three places compute in too small a type / reserve too little, all only
+  reachable with `max_datagram_size ≥ 16384`; each is replayed on the real code by the simulation
+  (signatures `dcstream:panic:…@…/recovery/bbr.rs`, `…/recovery/bbr/pacing.rs`,
+  `dcstream:panic:position_N_exceeded_capacity_of_N@s2n-codec/src/encoder/buffer.rs`). -/
 
 /-- `BbrCongestionController::minimum_window`: `(MIN_PIPE_CWND_PACKETS * max_datagram_size) as u32`
     where BOTH factors are `u16` — the product is taken in `u16` before the cast. `none` = overflow
@@ -205,21 +211,49 @@ theorem dc_end_to_end (remoteMaxData localSendMaxData cwnd : Nat) (ops : List St
 def bbrMinimumWindow? (maxDatagramSize : Nat) : Option Nat :=
   if 4 * maxDatagramSize < 2 ^ 16 then some (4 * maxDatagramSize) else none
 
-/-- FULL-STRENGTH STATEMENT (false of the code): for every MTU a dc stream may be configured with
-    (`1250 ≤ mtu ≤ 2^15 = stream::MAX_DATAGRAM_SIZE`) creating the congestion controller does not
-    overflow. COUNTEREXAMPLE: mtu = 16384 (and every larger one); the simulation replays it on the real
-    code: `run … mtu=16384 …` ⇒ `panic attempt_to_multiply_with_overflow@…/recovery/bbr.rs`. -/
-theorem dc_mtu_range_counterexample :
-    ¬ (∀ mtu, 1250 ≤ mtu → mtu ≤ 2 ^ 15 → (bbrMinimumWindow? mtu).isSome) := by
-  intro h
-  have := h 16384 (by decide) (by decide)
-  revert this
-  decide
+/-- `bbr::pacing::Pacer::set_send_quantum`: `floor = max_datagram_size * 2` in `u16` -/
+def bbrSendQuantumFloor? (maxDatagramSize : Nat) : Option Nat :=
+  if 2 * maxDatagramSize < 2 ^ 16 then some (2 * maxDatagramSize) else none
 
-/-- what does hold: no overflow exactly up to 16383 -/
-theorem dc_mtu_range_partial (mtu : Nat) : (bbrMinimumWindow? mtu).isSome ↔ mtu ≤ 16383 := by
-  unfold bbrMinimumWindow?
-  split <;> simp <;> omega
+/-- encoded size of a QUIC VarInt -/
+def varintLen (v : Nat) : Nat := if v < 64 then 1 else if v < 16384 then 2 else if v < 2 ^ 30 then 4 else 8
+
+/-- `packet::stream::encoder::encode_header`, payload part, for a packet without extra header and
+    control data: with `cap` bytes left for (length prefix + payload) — the tag is already
+    subtracted — the code takes `payload_len = cap − 2` (one byte of the unencoded empty `header_len`
+    plus the `saturating_sub(1)` of "TODO figure out encoding size for the capacity") and then writes
+    the VarInt prefix and the payload. `true` = it fits. -/
+def payloadFits (cap : Nat) : Bool := decide (varintLen (cap - 2) + (cap - 2) ≤ cap)
+
+/-- FULL-STRENGTH STATEMENT (false of the code): for every MTU a dc stream may be configured with
+    (`1250 ≤ mtu ≤ 2^15`) the congestion controller's arithmetic does not overflow and a full-sized
+    stream packet fits its datagram. COUNTEREXAMPLES: mtu = 16384 (minimum window), mtu = 32768 (send
+    quantum floor), 16500 bytes of room (4-byte length prefix, 2 bytes too many). -/
+theorem dc_mtu_range_counterexample :
+    ¬ (∀ mtu, 1250 ≤ mtu → mtu ≤ 2 ^ 15 → (bbrMinimumWindow? mtu).isSome) ∧
+    ¬ (∀ mtu, 1250 ≤ mtu → mtu ≤ 2 ^ 15 → (bbrSendQuantumFloor? mtu).isSome) ∧
+    ¬ (∀ cap, 1250 ≤ cap → cap ≤ 2 ^ 15 → payloadFits cap = true) := by
+  refine ⟨fun h => ?_, fun h => ?_, fun h => ?_⟩
+  · have := h 16384 (by decide) (by decide); revert this; decide
+  · have := h 32768 (by decide) (by decide); revert this; decide
+  · have := h 16500 (by decide) (by decide); revert this; decide
+
+/-- what does hold: the minimum window is fine exactly up to 16383, the send quantum floor up to
+    32767, and a full packet fits exactly while its payload needs at most a 2-byte prefix -/
+theorem dc_mtu_range_partial (mtu : Nat) :
+    ((bbrMinimumWindow? mtu).isSome ↔ mtu ≤ 16383) ∧ ((bbrSendQuantumFloor? mtu).isSome ↔ mtu ≤ 32767) ∧
+    (2 ≤ mtu → (payloadFits mtu = true ↔ mtu ≤ 16385)) := by
+  refine ⟨?_, ?_, ?_⟩
+  · unfold bbrMinimumWindow?; split <;> simp <;> omega
+  · unfold bbrSendQuantumFloor?; split <;> simp <;> omega
+  · intro h2
+    unfold payloadFits varintLen
+    simp only [decide_eq_true_eq]
+    split
+    · omega
+    · split
+      · omega
+      · split <;> omega
 
 /-! ## non-vacuity -/
 
